@@ -133,8 +133,15 @@ def parseSVal (s : String) : Option SVal :=
   | some (v, []) => some v
   | _ => none
 
-/-- variant / field lists: `(names, shapes)` -/
-abbrev Fields := List Bytes × List SType
+/-- variant / field lists: `(names, shapes)`; fields also carry their `skip_serializing_if` marks
+    (`name?:T` = `Option::is_none`, `name*:T` = `Vec::is_empty`) -/
+structure Fields where
+  names : List Bytes
+  types : List SType
+  skips : List SkipIf
+
+def Fields.plain (f : Fields) : Bool := f.skips.all (· == .never)
+def Fields.cons (n : Bytes) (t : SType) (k : SkipIf) (f : Fields) : Fields := ⟨n :: f.names, t :: f.types, k :: f.skips⟩
 abbrev Variants := List Bytes × List VShape
 
 mutual
@@ -164,7 +171,9 @@ partial def pType (cs : List Char) : Option (SType × List Char) :=
     | "umap" => do
       let cs ← eat '(' cs; let (k, cs) ← pType cs; let cs ← eat ',' cs; let (v, cs) ← pType cs; let cs ← eat ')' cs
       pure (.map false k v, cs)
-    | "st" => do let cs ← eat '{' cs; let (f, cs) ← pFields '}' cs; pure (.struct f.1 f.2, cs)
+    | "st" => do
+      let cs ← eat '{' cs; let (f, cs) ← pFields '}' cs
+      pure (if f.plain then .struct f.names f.types else .structS f.names f.types f.skips, cs)
     | "en" => do let cs ← eat '{' cs; let (v, cs) ← pVariants cs; pure (.enum v.1 v.2, cs)
     | "un" => do let cs ← eat '{' cs; let (v, cs) ← pVariants cs; pure (.untagged v.2, cs)
     | "fl" => do
@@ -172,7 +181,7 @@ partial def pType (cs : List Char) : Option (SType × List Char) :=
       let (a, cs) ← pFields '|' cs
       let (b, cs) ← pFields '|' cs
       let (c, cs) ← pFields '}' cs
-      pure (.flat a.1 a.2 b.1 b.2 c.1 c.2, cs)
+      pure (.flat a.names a.types b.names b.types c.names c.types, cs)
     | "it" => do
       let cs ← eat '(' cs; let (tag, cs) := takeWord cs; let cs ← eat ')' cs
       let cs ← eat '{' cs; let (v, cs) ← pVariants cs
@@ -196,14 +205,18 @@ partial def pTypes (close : Char) (cs : List Char) : Option (List SType × List 
 partial def pFields (close : Char) (cs : List Char) : Option (Fields × List Char) :=
   match cs with
   | c :: rest =>
-    if c == close then some (([], []), rest)
+    if c == close then some (⟨[], [], []⟩, rest)
     else do
       let (n, cs) := takeWord cs
+      let (k, cs) := (match cs with
+        | '?' :: cs => (SkipIf.isNone, cs)
+        | '*' :: cs => (SkipIf.isEmpty, cs)
+        | cs => (SkipIf.never, cs))
       let cs ← eat ':' cs
       let (t, cs) ← pType cs
       match cs with
-      | ',' :: cs => do let (f, cs) ← pFields close cs; pure ((strBytes n :: f.1, t :: f.2), cs)
-      | c :: cs => if c == close then pure (([strBytes n], [t]), cs) else none
+      | ',' :: cs => do let (f, cs) ← pFields close cs; pure (f.cons (strBytes n) t k, cs)
+      | c :: cs => if c == close then pure (⟨[strBytes n], [t], [k]⟩, cs) else none
       | [] => none
   | [] => none
 partial def pVariant (cs : List Char) : Option ((Bytes × VShape) × List Char) :=
@@ -214,7 +227,9 @@ partial def pVariant (cs : List Char) : Option ((Bytes × VShape) × List Char) 
     match ts with
     | [t] => pure ((strBytes n, .newtype t), cs)
     | ts => pure ((strBytes n, .tuple ts), cs)
-  | '{' :: cs => do let (f, cs) ← pFields '}' cs; pure ((strBytes n, .struct f.1 f.2), cs)
+  | '{' :: cs => do
+    let (f, cs) ← pFields '}' cs
+    pure ((strBytes n, if f.plain then .struct f.names f.types else .structS f.names f.types f.skips), cs)
   | _ => some ((strBytes n, .unit), cs)
 partial def pVariants (cs : List Char) : Option (Variants × List Char) :=
   match cs with
